@@ -17,21 +17,31 @@ PROP = {
                    "its dust limit -1/0/+1 or the fee at everything it owns -1/0/+1, so that the dust rule is judged exactly at its boundary for "
                    "both the paying and the non-paying party. In the RBF flow an honest closee refusing the honest closer's closing_complete "
                    "because it expects a transaction with other outputs (ErrCloserNoClosee / ErrCloserAndClosee) counts as the two sides not "
-                   "building the same transaction."),
+                   "building the same transaction. In a third of the RBF dialogues one or both parties name a NEW delivery script "
+                   "(closer_scriptpubkey, any of the three classes) in their 2nd/3rd closing_complete, as closer in either order and "
+                   "interleaved with the peer's offers: every exchange is judged with the scripts of THAT round, the closee must "
+                   "build and complete the same transaction, and every later offer of the other side must pay the peer to the latest "
+                   "script the peer has announced to it (coop_exact_outputs key rbf:stale-peer-script); a closee refusing an offer that "
+                   "names its own latest script counts as the two sides not building the same transaction."),
     "level_note": ("transaction level + legacy negotiation (two real ChanClosers over the real channels, ideal-fee lattice "
                    "[100..50000] sat^2, caps containing the other's ideal; finishes on both sides, <=200 messages, final fee among "
                    "the offers both signed, identical valid tx) + RBF-coop state machine (unit rbf: one rbf_coop_transitions machine per "
                    "party over the two real channels, ProcessEvent driven synchronously without the protofsm runtime, daemon events "
                    "executed by the harness: wire round trip + RbfMsgMapper, PRNG interleavings incl. early offers, link / no-link "
                    "observer, 1-3 offers per side over a fee lattice incl. unaffordable and dust-edge fees, musig2 sessions for "
-                   "taproot; Environment as peer/brontide.go builds it, i.e. BlockHeight 0). 'terminates' is bounded progress; "
+                   "taproot; Environment as peer/brontide.go builds it, i.e. BlockHeight 0; lnd has no public event that changes its own "
+                   "delivery script mid-close, so for an offer with a new closer script the harness rewrites the LOCAL script in all "
+                   "close terms reachable from the OFFERING party's machine right before its SendOfferEvent - the offering machine then "
+                   "produces the spec-conformant closing_complete with valid (musig2) signatures, the receiving machine is untouched; "
+                   "both sides make three offers in those dialogues; crossing offers that still name the old script are legitimately "
+                   "refused and only counted). 'terminates' is bounded progress; "
                    "held on the trials counted."),
     "design_ref": "DESIGN.md §3 C17",
     "rule": ("case = E1 schedule in which every HTLC is eventually resolved, then 6 PRNG trials (fee, script pair, payer) on "
              "reloaded copies; non-trivial = completed closes; distinct = (channel type, opener, payer option, number of outputs, "
              "which side is below dust, zero fee, script lengths); unit rbf: case = E1 schedule then one RBF-coop close dialogue "
              "of the two state machines, non-trivial = dialogues yielding at least one transaction, distinct = (channel type, "
-             "closer is opener, offer number of that closer, closer/closee output below dust, early offer seen, link mode)"),
+             "closer is opener, offer number of that closer, closer/closee output below dust, early offer seen, link mode, closer names a new script, closee has changed its script)"),
     "assumptions": ["MockSigner; musig2 nonces generated as peer.MusigChanCloser does"],
     "units": [{
         "name": "closetx", "pkg": "lnwallet", "test": "TestVerifC17",
@@ -56,7 +66,8 @@ PROP = {
         "floors": {"quick": {"nontrivial": 185, "oracle_identical_tx": 490, "oracle_exact_outputs": 490,
                              "oracle_interpreter": 490, "rbf_replacements": 170, "unaffordable_refused": 110,
                              "closer_output_dust": 90, "closee_output_dust": 22, "both_sides_closed": 115,
-                             "shaped_nonopener_balance": 45},
+                             "shaped_nonopener_balance": 45, "rbf_script_changes": 60,
+                             "rbf_script_change_closes": 55, "oracle_peer_script_after_change": 25},
                    "thorough": {"nontrivial": 13000, "oracle_identical_tx": 35000, "oracle_exact_outputs": 35000,
                                 "rbf_replacements": 13000, "unaffordable_refused": 8500,
                                 "closee_output_dust": 2400}},
